@@ -65,6 +65,7 @@ def merge_hist(cases, prefix):
 
 def run(ctx):
     ctx.static_and_proofs("query")
+    __import__("props.apishape", fromlist=["x"]).check_reader_shape(ctx)  # structural tie of the Search/List producers (fix 1fa6ce7)
     n = 234 if ctx.tier == "quick" else 15600
     cases = ctx.harness("c15", ["-n", str(n), "-tier", ctx.tier, "-scratch", ctx.work, "-procs", str(max(4, fw.NCPU // 2))], timeout=3000)
     if cases is None:
